@@ -1475,6 +1475,47 @@ def interplay_docs() -> list[tuple[str, dict]]:
     return out
 
 
+def rare_feature_docs() -> list[tuple[str, dict]]:
+    """Valid documents built around rarely used or 3.1-specific features, one feature group per document."""
+    R = lambda n: {"$ref": f"#/components/schemas/{n}"}  # noqa: E731
+    ok = {"200": {"description": "ok"}}
+    out = []
+
+    def mk(label, version, schemas=None, paths=None, **extra):
+        d = base_doc(version, "Rare " + label)
+        d["components"]["schemas"] = schemas or {}
+        d["paths"] = paths or {}
+        for k_, v_ in extra.items():
+            d["components"][k_] = v_
+        out.append((f"rare:{label}:{version}", d))
+    for version in ("3.0.3", "3.1.0"):
+        inner = {"properties": {"k": {"type": "string"}}}
+        mk("nullable_without_type", version, schemas={"Plain": dict(clone(inner), nullable=True), "Holder": {"type": "object", "properties": {"a": dict(clone(inner), nullable=True), "b": {"nullable": True, "properties": {"z": {"type": "integer"}}, "required": ["z"]},
+                                                                                                                                     "c": {"nullable": True}, "d": {"nullable": True, "additionalProperties": {"type": "string"}}}}},
+           paths={"/n": {"get": {"operationId": "get_n", "parameters": [{"name": "q", "in": "query", "schema": {"nullable": True}}], "responses": {"200": {"description": "ok", "content": {"application/json": {"schema": dict(clone(inner), nullable=True)}}}}}}})
+        mk("additional_properties_forms", version, schemas={"T": {"type": "object", "additionalProperties": True}, "F": {"type": "object", "properties": {"a": {"type": "string"}}, "additionalProperties": False}, "E": {"type": "object", "additionalProperties": {}},
+                                                            "N": {"additionalProperties": {"type": "integer"}}, "Req": {"type": "object", "required": ["ghost", "a"], "properties": {"a": {"type": "string"}}},
+                                                            "Ro": {"type": "object", "properties": {"id": {"type": "integer", "readOnly": True}, "old": {"type": "string", "deprecated": True}, "w": {"type": "string", "writeOnly": True}}}})
+        mk("operation_oddities", version, schemas={"M": {"type": "object", "properties": {"a": {"type": "string"}}}},
+           paths={"/untagged": {"get": {"operationId": "get_untagged", "tags": [], "responses": ok}}, "/no-id": {"get": {"responses": ok}, "post": {"tags": ["x"], "responses": ok}},
+                  "/item": {"summary": "an item", "description": "path item text", "servers": [{"url": "https://example.invalid"}], "get": {"operationId": "get_item_zq", "deprecated": True, "security": [{"a": []}, {"b": ["s"]}, {}], "responses": ok}},
+                  "/statuses": {"get": {"operationId": "get_statuses", "responses": {"default": {"description": "any"}, "2XX": {"description": "range", "content": {"application/json": {"schema": R("M")}}}, "200": {"description": "ok", "content": {"application/json": {"schema": R("M")}}}}}},
+                  "/styles": {"get": {"operationId": "get_styles", "parameters": [{"name": "ids", "in": "query", "style": "form", "explode": False, "schema": {"type": "array", "items": {"type": "integer"}}},
+                                                                                     {"name": "obj", "in": "query", "style": "deepObject", "explode": True, "schema": {"type": "object", "properties": {"a": {"type": "string"}}}},
+                                                                                     {"name": "flt", "in": "query", "content": {"application/json": {"schema": R("M")}}}, {"name": "X-List", "in": "header", "schema": {"type": "array", "items": {"type": "string"}}}], "responses": ok}},
+                  "/sibling": {"get": {"operationId": "get_sibling", "responses": {"200": {"description": "ok", "content": {"application/json": {"schema": {"$ref": "#/components/schemas/M", "description": "text beside a reference"}}}}}}}})
+        mk("reusable_sections", version, schemas={"M": {"type": "object", "properties": {"a": {"type": "string"}}}},
+           paths={"/r": {"post": {"operationId": "post_r", "parameters": [{"$ref": "#/components/parameters/Lim"}], "requestBody": {"$ref": "#/components/requestBodies/Body"}, "responses": {"200": {"$ref": "#/components/responses/Ok"}, "404": {"$ref": "#/components/responses/Missing"}}}}},
+           parameters={"Lim": {"name": "limit", "in": "query", "schema": {"type": "integer"}, "example": 3}}, requestBodies={"Body": {"content": {"application/json": {"schema": R("M")}}}},
+           responses={"Ok": {"description": "ok", "headers": {"X-Rate": {"schema": {"type": "integer"}}}, "content": {"application/json": {"schema": R("M"), "examples": {"one": {"value": {"a": "x"}}}}}}, "Missing": {"description": "no"}},
+           headers={"Rate": {"schema": {"type": "integer"}}})
+    mk("tuples", "3.1.0", schemas={"Pair": {"type": "array", "prefixItems": [{"type": "string"}, R("M")]}, "M": {"type": "object", "properties": {"a": {"type": "string"}}},
+                                   "Holder": {"type": "object", "properties": {"p": R("Pair"), "q": {"type": "array", "prefixItems": [{"type": "integer"}], "items": {"type": "string", "format": "date"}}, "e": {"type": "array", "prefixItems": []}}}})
+    mk("type_lists", "3.1.0", schemas={"Holder": {"type": "object", "properties": {"a": {"type": ["string", "integer", "null"]}, "b": {"type": ["null"]}, "c": {"type": ["object", "array"], "items": {"type": "string"}, "properties": {"k": {"type": "string"}}},
+                                                                                     "d": {"type": ["string"], "format": "date"}, "e": {"const": None}, "f": {"type": "null"}, "g": {"enum": [None]}, "h": {"type": ["number", "boolean"], "default": 2}}}})
+    return out
+
+
 def cross_tag_docs() -> list[tuple[str, dict]]:
     """Operations whose derived module names coincide across tags (getItem / get_item / get-item) but which differ in
     method, path, parameters, body and response; some carry several tags.  A module is unique per tag only."""
